@@ -179,6 +179,45 @@ func genC13(repo string) (string, error) {
 		}
 		fmt.Fprintf(&o.sb, "Definition %s : string := %s.  (* %s: %s *)\n", c.coq, goast.Q(s), st.Path, c.name)
 	}
+	// the paged prefix scan behind LoadRules / LoadRuleGroups (model/C13_Paged.v)
+	if err := o.constZ(st, "minKVRangeLimit", "minKVRangeLimit"); err != nil {
+		return "", err
+	}
+	mk, err := goast.Load(repo, "server/kv/mem_kv.go")
+	if err != nil {
+		return "", err
+	}
+	ek, err := goast.Load(repo, "server/kv/etcd_kv.go")
+	if err != nil {
+		return "", err
+	}
+	for _, b := range []body{{st, "Storage", "LoadRangeByPrefix"}, {mk, "memoryKV", "LoadRange"}, {ek, "etcdKVBase", "LoadRange"}} {
+		fd, err := b.f.Func(b.recv, b.name)
+		if err != nil {
+			return "", err
+		}
+		o.strList("body_"+b.recv+"_"+b.name, c12Body(b.f, fd), b.f.Path+": statements of ("+b.recv+")."+b.name)
+	}
+	// the successor expression of the scan: `nextKey = <expr>` inside LoadRangeByPrefix
+	lrp, err := st.Func("Storage", "LoadRangeByPrefix")
+	if err != nil {
+		return "", err
+	}
+	var nexts []string
+	ast.Inspect(lrp.Body, func(n ast.Node) bool {
+		as, ok := n.(*ast.AssignStmt)
+		if !ok || len(as.Lhs) != 1 || len(as.Rhs) != 1 {
+			return true
+		}
+		if id, ok := as.Lhs[0].(*ast.Ident); ok && id.Name == "nextKey" {
+			nexts = append(nexts, as.Tok.String()+" "+st.Src(as.Rhs[0]))
+		}
+		return true
+	})
+	if len(nexts) == 0 {
+		return "", fmt.Errorf("%s: LoadRangeByPrefix: no assignment to nextKey found", st.Path)
+	}
+	o.strList("load_next_key", nexts, st.Path+": LoadRangeByPrefix: the assignments to nextKey (start, then successor of the last key of a page)")
 	for _, b := range []body{{st, "Storage", "SaveRule"}, {st, "Storage", "DeleteRule"}, {st, "Storage", "LoadRules"},
 		{st, "Storage", "SaveRuleGroup"}, {st, "Storage", "DeleteRuleGroup"}, {st, "Storage", "LoadRuleGroups"}} {
 		fd, err := b.f.Func(b.recv, b.name)
